@@ -163,7 +163,7 @@ def run_gen(lox, mod, proj, cwd, rep, elsewhere):
     if cwd == "inside":
         cmd, wd = [lox] + (["--report"] if rep else []) + ["."], proj
     elif cwd == "parent":
-        cmd, wd = [lox] + (["--report"] if rep else []) + ["proj"], mod
+        cmd, wd = [lox] + (["--report"] if rep else []) + [os.path.relpath(proj, mod)], mod
     else:
         cmd, wd = [lox] + (["--report"] if rep else []) + [proj], elsewhere
     try:
@@ -474,7 +474,7 @@ def stable_map(rep, sc, quick):
     tlc_must(r0, "StableMap")
     if r0.violation:
         raise Infra("StableMap.tla violates its own property: " + r0.violation)
-    depth = 3 if quick else 5
+    depth = 3 if quick else 4
     keys, vals = [1, 2, 3], [7, 8]
     ops = [{"op": "put", "k": k, "v": v} for k in keys for v in vals] + [{"op": "remove", "k": k, "v": 0} for k in keys] + [{"op": "clear", "k": 0, "v": 0}]
     mops = [{"op": "add", "k": k, "v": v} for k in keys for v in vals] + [{"op": "remove", "k": k, "v": 0} for k in keys] + [{"op": "clear", "k": 0, "v": 0}]
@@ -532,12 +532,14 @@ def c14(tier):
         raise Infra("lox does not build: " + p.stderr.decode()[-2000:])
     dirs = ["internal/parser", "examples/calc", "examples/jsonc", "examples/bolox"]
     hist = []
-    for d in dirs:
+    # every directory is regenerated three times, the directory named as `.`, by a relative path from the repository root and
+    # by an absolute path from elsewhere: the checked-in bytes must come back however the directory is spelled
+    for d, cwd in [(d, cwd) for d in dirs for cwd in ("inside", "parent", "elsewhere")]:
         before = read_gen(os.path.join(copy, d))
-        rc, out, err = run_gen(lox, copy, os.path.join(copy, d), "inside", False, sc)
+        rc, out, err = run_gen(lox, copy, os.path.join(copy, d), cwd, False, sc)
         after = read_gen(os.path.join(copy, d))
         obs = {k: ("same" if before[k] == after[k] and before[k] is not None else ("absent" if after[k] is None else "changed")) for k in GENFILES}
-        hist.append({"dir": d, "exit": rc, "obs": obs, "stderr": err[-500:]})
+        hist.append({"dir": d, "cwd": cwd, "exit": rc, "obs": obs, "stderr": err[-500:]})
         if rc != 0:
             rep.failure("c14.generation-fails:" + d, "lox fails on %s: %s" % (d, err[-300:]), {"dir": d, "stderr": err})
         for k in GENFILES:
@@ -554,7 +556,7 @@ def c14(tier):
     for h in hist:
         m = {"same": "s1", "changed": "other", "absent": "absent"}
         # Out(src) := the checked-in bytes; the observation "same" is the class s1
-        H.append({"init": "s1", "steps": [{"op": "gen", "cwd": "inside", "rep": False, "s": "s1", "f": "base", "k": "junk",
+        H.append({"init": "s1", "steps": [{"op": "gen", "cwd": h["cwd"], "rep": False, "s": "s1", "f": "base", "k": "junk",
                                             "obs": {"base": [m[h["obs"]["base"]]], "lexer": [m[h["obs"]["lexer"]]], "parser": [m[h["obs"]["parser"]]],
                                                     "exit": h["exit"], "report": ["none"]}}]})
     json.dump(H, open(os.path.join(sd, "gendir_hist.json"), "w"))
@@ -567,7 +569,7 @@ def c14(tier):
         rep.note("GenDirTrace verdicts and byte comparison disagree: %s" % json.dumps(rej)[:300])
     rep.coverage = {
         "states": max(rt.distinct, 1), "transitions": max(rt.states, 1), "traces_validated_against_impl": len(hist) - len(rej),
-        "evaluations": len(dirs) * 3, "distinct_nontrivial": len(dirs) * 3,
+        "evaluations": len(hist) * 3, "distinct_nontrivial": len(dirs) * 3,
         "rule": "the four directories with checked-in generated files (internal/parser, examples/calc, examples/jsonc, examples/bolox) "
                 "x three files each; lox is built from a scratch copy of the working tree and run there; each file is compared byte for byte; "
                 "every (directory, file) pair is a distinct case",
